@@ -123,6 +123,15 @@ std::vector<Sector> decode_mfm_track(const BitStream& bits, bool verbose)
   enum class MfmDecodeState { LookingForSectorHeader, LookingForRecord };
   Sector sec;
   int sec_size;
+  // A floppy disc controller only accepts a data address mark which
+  // closely follows the ID field (in double density, within 43 bytes
+  // of it).  A mark found further on belongs to a later sector, whose
+  // own ID field we would have skipped over: pairing it with the ID
+  // we hold would return that sector's data under the wrong address.
+  // An MFM-encoded byte occupies 16 bits; the extra byte is for the
+  // mark itself.
+  constexpr size_t max_bits_from_id_to_data_mark = (43u + 1u) * 16u;
+  size_t id_end = 0;
   enum MfmDecodeState state = MfmDecodeState::LookingForSectorHeader;
   while (bits_avail)
     {
@@ -171,6 +180,7 @@ std::vector<Sector> decode_mfm_track(const BitStream& bits, bool verbose)
 		    if (decode_sector_address_and_size(header.data(), &sec.address, &sec_size,
 						       error))
 		      {
+			id_end = thisbit;
 			state = MfmDecodeState::LookingForRecord;
 			continue;
 		      }
@@ -185,6 +195,19 @@ std::vector<Sector> decode_mfm_track(const BitStream& bits, bool verbose)
 	  continue;
 
 	case MfmDecodeState::LookingForRecord:
+	  if (thisbit - id_end > max_bits_from_id_to_data_mark)
+	    {
+	      if (verbose)
+		{
+		  std::cerr << "No data address mark follows the ID of sector "
+			    << sec.address << "; dropping the sector\n";
+		}
+	      // Resume the search for an ID just after the one we are
+	      // abandoning, so that the next sector is not lost too.
+	      thisbit = id_end;
+	      state = MfmDecodeState::LookingForSectorHeader;
+	      continue;
+	    }
 	  {
 	    // The data over which the CRC is computed is the three A1 bytes plus:
 	    // byte 0: marker byte (data_address_mark FB or deleted_data_address_mark F8)
